@@ -9,8 +9,10 @@
 (*                                                                         *)
 (* Additional leaf descriptions:                                           *)
 (*   [t |-> "ptr", d, x]          pointer of depth d (1..2) to leaf x      *)
-(*   [t |-> "sl", arr, e]         slice (arr = FALSE) or array of leaves   *)
-(*                                or of nested slices                      *)
+(*   [t |-> "sl", arr, ety, slack, e]  slice (arr = FALSE) or array; ety =  *)
+(*        "typed": []int / []string / [][]int, "ptr": []*int (a nil       *)
+(*        element = nil pointer), "any": []any (elements: any leaf or nil);*)
+(*        slack = spare backing capacity the slice was allocated with      *)
 (*   [t |-> "mp", ks, vs]         map[string]int: keys ks, values vs       *)
 (*   [t |-> "mpa", ks, e]         map[string]any: keys ks, values e (leaves or nil) *)
 (*   [t |-> "st", a, p, c]        struct{A int; p string (unexported); C string} *)
@@ -22,7 +24,7 @@ Canon(n) ==
   CASE n.t = "leaf" -> [t |-> "leaf", ty |-> n.ty, v |-> n.v]
     [] n.t = "nil"  -> [t |-> "nil"]
     [] n.t = "ptr"  -> Canon(n.x)          \* documented: pointers are dereferenced at any depth before comparing
-    [] n.t = "sl"   -> [t |-> "sl", arr |-> n.arr, e |-> [i \in 1..Len(n.e) |-> Canon(n.e[i])]]
+    [] n.t = "sl"   -> [t |-> "sl", e |-> [i \in 1..Len(n.e) |-> Canon(n.e[i])]]   \* array or slice, element typing and backing capacity are not part of the value
     [] n.t = "mp"   -> [t |-> "mp", kv |-> {<<n.ks[i], n.vs[i]>> : i \in 1..Len(n.ks)}]      \* a map is unordered
     [] n.t = "mpa"  -> [t |-> "mpa", kv |-> {<<n.ks[i], Canon(n.e[i])>> : i \in 1..Len(n.ks)}]
     [] n.t = "st"   -> [t |-> "st", a |-> n.a, c |-> n.c]                                  \* the unexported field is skipped
@@ -36,12 +38,22 @@ Bump(v) == IF v = <<>> THEN <<"q">> ELSE <<IF v[1] = "9" THEN "8" ELSE IF v[1] \
                                               ELSE IF v[1] = "q" THEN "w" ELSE "q">> \o Tail(v)
 BoolFlip(v) == IF v = <<"t", "r", "u", "e">> THEN <<"f", "a", "l", "s", "e">> ELSE <<"t", "r", "u", "e">>
 
+\* the same word in the other letter case (keywords and operator symbols are case sensitive)
+Lower == <<"a", "b", "c", "k", "x", "y", "z", "q", "w", "v">>
+Upper == <<"A", "B", "C", "K", "X", "Y", "Z", "Q", "W", "V">>
+FlipTok(t) == IF \E i \in 1..Len(Lower) : Lower[i] = t THEN Upper[CHOOSE i \in 1..Len(Lower) : Lower[i] = t]
+              ELSE IF \E i \in 1..Len(Upper) : Upper[i] = t THEN Lower[CHOOSE i \in 1..Len(Upper) : Upper[i] = t] ELSE t
+CaseFlip(v) == [i \in 1..Len(v) |-> FlipTok(v[i])]
+OpFlip(o) == IF o = "like" THEN "LIKE" ELSE IF o = "LIKE" THEN "like" ELSE o     \* two user operators, context "user", texts like / LIKE
+
 RECURSIVE Mutants(_)
 Mutants(n) ==
   CASE n.t = "leaf" -> {[n EXCEPT !.v = IF n.ty = "bool" THEN BoolFlip(n.v) ELSE Bump(n.v)]}
     [] n.t = "nil"  -> {}
     [] n.t = "ptr"  -> {[n EXCEPT !.x = m] : m \in Mutants(n.x)}
     [] n.t = "sl"   -> UNION {{[n EXCEPT !.e[i] = m] : m \in Mutants(n.e[i])} : i \in 1..Len(n.e)}        \* every position
+                       \cup (IF n.ety = "typed" THEN {}                                                     \* nil element <-> a value
+                             ELSE {[n EXCEPT !.e[i] = IF n.e[i].t = "nil" THEN TrLeafT("int", <<"7">>) ELSE TrNil] : i \in 1..Len(n.e)})
                        \cup (IF Len(n.e) > 0 THEN {[n EXCEPT !.e = SubSeq(n.e, 1, Len(n.e) - 1)]} ELSE {})   \* one fewer
                        \cup (IF Len(n.e) > 0 THEN {[n EXCEPT !.e = Append(n.e, n.e[1])]} ELSE {})            \* one more
     [] n.t = "mp"   -> UNION {{[n EXCEPT !.vs[i] = Bump(n.vs[i])], [n EXCEPT !.ks[i] = Bump(n.ks[i])]} : i \in 1..Len(n.ks)}
@@ -58,17 +70,23 @@ Mutants(n) ==
          \cup {[n EXCEPT !.cap = IF n.cap = 0 THEN 9 ELSE n.cap + 1]}                                          \* capacity
     [] n.t = "cnd"  -> {[n EXCEPT !.ex = m] : m \in Mutants(n.ex)}
                        \cup {[n EXCEPT !.kw = Bump(n.kw)], [n EXCEPT !.op = IF n.op = "Eq" THEN "Ne" ELSE "Eq"]}
+                       \cup ({[n EXCEPT !.kw = CaseFlip(n.kw)], [n EXCEPT !.op = OpFlip(n.op)]} \ {n})         \* letter case alone
 
 \* variations that must NOT matter
 RECURSIVE Neutral(_)
 Neutral(n) ==
   CASE n.t = "st"  -> {[n EXCEPT !.p = Bump(n.p)]}
+    [] n.t = "sl"  -> {[n EXCEPT !.slack = IF n.slack = 0 THEN 5 ELSE 0]}                                          \* allocated differently
+                      \cup (IF \A i \in 1..Len(n.e) : n.e[i].t = "leaf" /\ n.e[i].ty = "int"                       \* []int = []*int = []any
+                            THEN {[n EXCEPT !.ety = y] : y \in {"typed", "ptr", "any"} \ {n.ety}} ELSE {})
+                      \cup UNION {{[n EXCEPT !.e[i] = m] : m \in Neutral(n.e[i])} : i \in 1..Len(n.e)}
     [] n.t = "stk" -> {[n EXCEPT !.paren = ~n.paren], [n EXCEPT !.nspad = ~n.nspad], [n EXCEPT !.sym = <<"&">>]}
                       \cup {[n EXCEPT !.form = f] : f \in {"native", "alias", "xalias", "ptr"} \ {n.form}}        \* C12
                       \cup UNION {{[n EXCEPT !.e[i] = m] : m \in Neutral(n.e[i])} : i \in 1..Len(n.e)}
     [] n.t = "cnd" -> {[n EXCEPT !.paren = ~n.paren]} \cup {[n EXCEPT !.ex = m] : m \in Neutral(n.ex)}
                       \cup {[n EXCEPT !.form = f] : f \in {"native", "alias", "ptr"} \ {n.form}}
     [] n.t = "ptr" -> {[n EXCEPT !.x = m] : m \in Neutral(n.x)}
+    [] n.t = "mpa" -> UNION {{[n EXCEPT !.e[i] = m] : m \in Neutral(n.e[i])} : i \in 1..Len(n.ks)}
     [] OTHER -> {}
 
 \* the oracle itself is mutation sensitive, symmetric and blind to the neutral variations
